@@ -626,3 +626,30 @@ def setup_all(specs):
             return 1
     print("setup ok: %d coq targets, %d model drivers, %d harness bins" % (len(targets), len(models), len(bins)))
     return 0
+
+
+def merge_part(spec, name):
+    """Merge checks/<name>.py (PART dict written by a kit) into a property spec: props / extract / theorems /
+    stages / pre hook / rule / trusted_base / assumptions are appended."""
+    import importlib.util
+    path = os.path.join(ROOT, "checks", name + ".py")
+    s = importlib.util.spec_from_file_location(name, path)
+    m = importlib.util.module_from_spec(s)
+    s.loader.exec_module(m)
+    part = m.PART
+    coq = spec["coq"]
+    props = coq["props"]
+    if isinstance(props, str):
+        props = [props]
+    coq["props"] = props + list(part.get("props", []))
+    coq["extract"] = list(coq.get("extract", [])) + list(part.get("extract", []))
+    if coq.get("theorems") != "auto":
+        coq["theorems"] = list(coq["theorems"]) + list(part.get("theorems", []))
+    spec["stages"] = list(spec.get("stages", [])) + list(part.get("stages", []))
+    if part.get("pre"):
+        spec["pre"] = list(spec.get("pre", [])) + [getattr(m, part["pre"])]
+    if part.get("rule"):
+        spec["rule"] = spec.get("rule", "") + " || " + part["rule"]
+    spec["trusted_base"] = list(spec.get("trusted_base", [])) + list(part.get("trusted_base", []))
+    spec["assumptions"] = list(spec.get("assumptions", [])) + list(part.get("assumptions", []))
+    return spec
